@@ -271,6 +271,15 @@ func (f *RunningEventFilter) onReorg(writer db.KeyValueWriter) error {
 		if err != nil {
 			return err
 		}
+		// That window is open again: its persisted copy no longer describes a completed
+		// window. Drop it with the revert (the next rollover writes it again), otherwise
+		// a rebuild after a restart takes it as complete.
+		if err := DeleteAggregatedBloomFilter(writer, rangeStartAligned, rangeEndAligned); err != nil {
+			return fmt.Errorf(
+				"deleting re-opened persisted filter for window [%d,%d]: %w",
+				rangeStartAligned, rangeEndAligned, err,
+			)
+		}
 		f.inner = &lastStoredFilter
 	}
 
